@@ -126,11 +126,13 @@ package ovsdb
 //@ loop 1 invariant keyType == "uuid" ==> (forall k: interface{} :: (k in m.GoMap) && MappedName(k, namedUUIDs) ==> !visited(k))
 // a uuid column, or a set-of-uuid column given as a bare atom (RFC 7047: a set of
 // one element may be written as the element), holds the uuid the name stands for
-//@ pred UUIDPosition(column *ColumnSchema) := column.Type == "uuid" || (column.Type == "set" && column.TypeObj.Key.Type == "uuid")
+// ... and so does a map column with uuid keys given a set of keys or one key:
+// the value of a "delete" mutation (RFC 7047 5.1)
+//@ pred UUIDPosition(column *ColumnSchema) := column.Type == "uuid" || ((column.Type == "set" || column.Type == "map") && column.TypeObj.Key.Type == "uuid")
 //@ ensures UUIDPosition(column) && istype(value, "UUID") && (unbox(value, "UUID").GoUUID in namedUUIDs) ==> (istype(result, "UUID") && unbox(result, "UUID").GoUUID == namedUUIDs[unbox(value, "UUID").GoUUID])
 //@ ensures UUIDPosition(column) && istype(value, "string") && (unbox(value, "string") in namedUUIDs) ==> (istype(result, "string") && unbox(result, "string") == namedUUIDs[unbox(value, "string")])
 // a set of uuids given as a set holds no name afterwards
-//@ ensures column.Type == "set" && column.TypeObj.Key.Type == "uuid" && istype(value, "OvsSet") ==> (forall i: int :: 0 <= i && i < len(unbox(value, "OvsSet").GoSet) ==> !MappedName(unbox(value, "OvsSet").GoSet[i], namedUUIDs))
+//@ ensures (column.Type == "set" || column.Type == "map") && column.TypeObj.Key.Type == "uuid" && istype(value, "OvsSet") ==> (forall i: int :: 0 <= i && i < len(unbox(value, "OvsSet").GoSet) ==> !MappedName(unbox(value, "OvsSet").GoSet[i], namedUUIDs))
 //@ loop 2 invariant forall j: int :: 0 <= j && j <= rangeindex ==> !MappedName(ovsSet.GoSet[j], namedUUIDs)
 //@ modifies unbox(value, "OvsSet").GoSet[*], unbox(value, "[]string")[*], unbox(value, "[]UUID")[*], unbox(value, "OvsMap").GoMap[*]
 //@ func expandColumnNamedUUIDs
